@@ -13,7 +13,7 @@ From Coq Require Import List Ascii ZArith Bool.
 From CGV Require Import Base.PyBase Base.PyVal Base.NxGraph Gen.WriterGen Dialect.DialectImpl Write.WriteImpl Write.FragDefs
      Write.FragCheck Write.FormatBondingSpec.
 From CGV Require Import Frag.NDict Frag.StripImpl Frag.FragText Write.FormatStripRound.
-From CGV Require Import Write.WriteProofs Write.PathRound Write.FragRead Write.CoarseChain Write.CoarseFrags Write.CoarseGraph Write.CoarseTrack Write.CoarseGraphX Reader.Grammar Reader.ReaderImpl.
+From CGV Require Import Write.WriteProofs Write.PathRound Write.FragRead Write.CoarseChain Write.CoarseFrags Write.CoarseGraph Write.CoarseTrack Write.CoarseGraphX Write.CoarseFragsX Reader.Grammar Reader.ReaderImpl.
 From CGV Require Import Write.WriteDefs Write.TreeDefs Write.TreeRound Write.RingRound Write.FullMachine Write.FullRound Write.FullDomain Reader.Lin.
 Import ListNotations.
 Open Scope Z_scope.
@@ -181,6 +181,52 @@ Example C08_coarse_graph_nonvacuous :
      end.
 Proof. exact coarse_graph_example. Qed.
 
+(** a LIST of coarse fragments of ANY shape, any number, unbounded ([gfrag] = name, plain graph, descriptors per node,
+    transcript of the ring-edge set, default-H nodes; [gf_ok]: fragment name free of ',' and '=', the graph in C07's domain
+    without aromatic flags, the transcript contract, descriptors of the four kinds with orders 0..4): there are texts
+    t_1..t_n, one per fragment, with [gf_back] = everything C08_coarse_graph_roundtrip says of fragment i and t_i (t_i is
+    what write_graph writes; the strip model splits it; the clean text is read as a graph isomorphic to the fragment;
+    the coarse branch of fragment_iter returns it post-processed with exactly the fragment's descriptor dict), such that
+    write_cgsmiles_fragments(smiles_format=False) writes "{#name1=t_1,...,#namen=t_n}", the splitting of fragment_iter
+    ([fragment_split], the strip component's model) returns the pairs (name_i, t_i) in order -- no t_i contains ','
+    (CoarseFragsX.nocomma_ditems) --, and fragment_iter(all_atom=False) yields, in order, under each name, the result of
+    the coarse branch on t_i (whose value [gf_back] gives). *)
+Theorem C08_coarse_fragments_roundtrip_any : forall fo a0 (fs : list gfrag),
+  fragment_node_parser fo [] = Ok a0 -> fs <> [] -> Forall gf_ok fs ->
+  exists ts, Forall2 (gf_back fo a0) fs ts /\
+    let txt := S "{" ++ join (S ",") (map gf_def (combine fs ts)) ++ S "}" in
+    write_cgsmiles_fragments false (map gf_entry fs) = Ok txt
+    /\ fragment_split txt = combine (map gf_name fs) ts
+    /\ read_coarse_fragments fo txt
+       = map (fun ft => (gf_name (fst ft), read_coarse_fragment fo (gf_name (fst ft)) (snd ft))) (combine fs ts).
+Proof. exact coarse_fragments_roundtrip_any. Qed.
+(** [gf_back] spelled out (definitional) *)
+Theorem C08_gf_back_spelled : forall fo a0 F g D tr dhl t, gf_back fo a0 (F, g, D, tr, dhl) t <->
+  exists T h, NoDup (rkeys T) /\ (forall x, In x (rkeys T) <-> In x (node_keys g)) /\
+    let items := the_items (name_of g) (esym_of g) (rsym_of g tr) T tr in
+    let dl := combine items (map D (worder T)) in
+    t = render (ditems dl)
+    /\ write_graph_by (S "atomname") false (fun k => memz k dhl) (decorate_graph F D g) tr = Ok t
+    /\ strip_bonding_descriptors fo t = Ok (lins_str items, ddict 0 dl [], [], adict a0 0 dl [])
+    /\ read_cgsmiles fo (lins_str items) = Ok h
+    /\ graph_iso (fun k => base_attrs (name_of g k)) g h
+    /\ read_coarse_fragment fo F t = Ok (post_fragment F h (ddict 0 dl []) (adict a0 0 dl [])).
+Proof. exact (fun fo a0 F g D tr dhl t => conj (fun H => H) (fun H => H)). Qed.
+(** non-vacuity: two fragments with rings and branches, the first with "=(" twice *)
+Example C08_coarse_fragments_any_nonvacuous :
+  Forall gf_ok ex_gfs
+  /\ write_cgsmiles_fragments false (map gf_entry ex_gfs) = Ok ex_gtxt
+  /\ map fst (read_coarse_fragments (fun _ => None) ex_gtxt) = [S "X"; S "Y"]
+  /\ map (fun nr => match snd nr with Ok h => map (fun n => (nk n, aget (S "atomname") (na n), aget (S "bonding") (na n))) h | Err _ => [] end)
+         (read_coarse_fragments (fun _ => None) ex_gtxt)
+     = [[(0, Some (VStr (S "A")), Some (VList [VStr (S "$a1")])); (1, Some (VStr (S "B")), None); (2, Some (VStr (S "D")), None);
+         (3, Some (VStr (S "PEO")), Some (VList [VStr (S ">2"); VStr (S "!x0")])); (4, Some (VStr (S "C")), None)];
+        [(0, Some (VStr (S "A")), Some (VList [VStr (S "$a1")])); (1, Some (VStr (S "B")), None);
+         (2, Some (VStr (S "PEO")), Some (VList [VStr (S ">2"); VStr (S "!x0")])); (3, Some (VStr (S "C")), None)]].
+Proof. exact coarse_fragments_any_example. Qed.
+Example C08_ex_gtxt : to_string ex_gtxt = "{#X=[#A][$a]#1[#B]=([#D])=([#PEO]=[>].[!x])[#C]1,#Y=[#A][$a]=1=[#B]([#PEO]=[>].[!x])[#C]1}"%string.
+Proof. reflexivity. Qed.
+
 Theorem C08_descriptors_on_atom0 : forall L : list dspec, L <> [] ->
   fold_left (fun d x => nd_append 0 (d_stored x) d) L [] = [(0%nat, map d_stored L)].
 Proof. exact descs_on_atom0. Qed.
@@ -204,4 +250,5 @@ Print Assumptions C08_write_coarse_fragments.
 Print Assumptions C08_split_coarse_fragments.
 Print Assumptions C08_coarse_fragments_roundtrip.
 Print Assumptions C08_coarse_graph_roundtrip.
+Print Assumptions C08_coarse_fragments_roundtrip_any.
 Print Assumptions C08_descriptors_on_atom0.
